@@ -409,7 +409,7 @@ Definition close_mid (cfg : config) (s : state) (c h : N) (ch : channel) : state
   if 0 <? h then fst (handle_reject cfg s2 c h 0 true true 60 120) else s2.
 
 Lemma channel_close_eq cfg s c h ch : get_chan s c h = Some ch ->
-  channel_close cfg s c h = upd_chan (close_mid cfg s c h ch) c h (fun ch => ch <| ch_status := ChClosed |>).
+  channel_close cfg s c h = upd_chan (close_mid cfg s c h ch) c h (fun ch => ch <| ch_status := ChClosed |> <| ch_cur := None |>).
 Proof. intros Ech. unfold channel_close, close_mid. rewrite Ech. reflexivity. Qed.
 
 Lemma channel_close_shape cfg s c h ch :
